@@ -208,8 +208,21 @@ def nc_body(case, ctx, tmp):
             fm.add_var(st["name"], sp, fm.axes)
         else:
             sp = st["array"]
-            arr = ncc.build_array(sp, st["axes"])
             mode = op.split(':')[1]
+            axes_ = st["axes"]
+            if fm is not None and mode != 'w' and (len(st["name"]) + len(sp["dims"]) + case["read_seed"]) % 3 == 0 and any(d in fm.axes for d in sp["dims"]):
+                # the appended array's axes carry other metadata than the axes already in the file: what is there is kept
+                axes_ = dict(axes_)
+                for d in sp["dims"]:
+                    if d in fm.axes:
+                        at_ = dict(axes_[d][2])
+                        for kk in list(at_)[:1]:
+                            if isinstance(at_[kk], str):
+                                at_[kk] = at_[kk] + '-other'
+                        at_['appended_note'] = 'only on the appended array'
+                        axes_[d] = (axes_[d][0], axes_[d][1], at_)
+                ctx.outcomes['nc-appends-with-other-axis-metadata'] += 1
+            arr = ncc.build_array(sp, axes_)
             ctx.outcomes['nc-append-steps'] += 1
             if op.startswith('da.write_nc'):
                 kw = {"format": fmt} if mode in ('w', 'a+') else {}
